@@ -39,13 +39,13 @@ let () =
           if f.(0) = "A" then begin
             let ds = deltas (rest 9) in
             let texts = f.(8) :: List.map (fun (_, t) -> string_of_bytes t) ds in
-            run_mock (z_of_string f.(1)) (z_of_string f.(2)) (z_of_string f.(3)) (z_of_string f.(4))
+            run_mock_gen (z_of_string f.(1)) (z_of_string f.(2)) (z_of_string f.(3)) (z_of_string f.(4))
               (parse_regs f.(5)) (z_of_string f.(6)) (unhex f.(7)) (bytes_of_string f.(8)) ds (names_of texts), 'A'
           end else begin
             let k = match f.(1) with "x86" -> 0 | "amd64" -> 1 | _ -> 2 in
             let valid = if f.(3) = "all" then None
               else Some (if f.(3) = "-" then [] else List.map bytes_of_string (String.split_on_char ',' f.(3))) in
-            run_real (z_of_int k) (parse_regs f.(2)) valid (z_of_string f.(4)) (unhex f.(5))
+            run_real_gen (z_of_int k) (parse_regs f.(2)) valid (z_of_string f.(4)) (unhex f.(5))
               (z_of_string f.(6)) (z_of_string f.(7)) (bytes_of_string f.(8)) (deltas (rest 9)), 'B'
           end in
         let st = int_of_z (o_status o) in
